@@ -112,53 +112,88 @@ def _in_debug_assert(sp):
     return any(m in DEBUG_MACROS for m in mir.span_macros(sp))
 
 
+def debug_regions(body):
+    """blocks that execute only when debug assertions are on: reachable from the true edge of a
+    `cfg!(debug_assertions)` switch (a constant switch whose discriminant comes from the
+    debug_assert! expansion) and not from its false edge"""
+    out = set()
+    consts = mir._const_locals(body)
+    for i, bb in enumerate(body["bbs"]):
+        t = bb["t"]
+        if t["k"] != "switch":
+            continue
+        l = mir.op_local(t["d"])
+        is_dbg = _in_debug_assert(t.get("sp", ""))
+        if l is not None:
+            for st in bb["s"]:
+                if st["k"] == "as" and st["p"]["l"] == l and any(m in ("$crate::cfg", "cfg") for m in mir.span_macros(st.get("sp", ""))) and _in_debug_assert(st.get("sp", "")):
+                    is_dbg = True
+        if not is_dbg or (l is not None and l not in consts and mir.op_const(t["d"]) is None):
+            continue
+        if len(t["ts"]) != 1:
+            continue
+        else_bb = t["ts"][0][1]      # value 0 (false) target
+        then_bb = t["o"]
+        def reach(src):
+            seen = {src}
+            st_ = [src]
+            while st_:
+                x = st_.pop()
+                for _lab, y in mir.term_succs(body["bbs"][x]["t"]):
+                    if y not in seen:
+                        seen.add(y)
+                        st_.append(y)
+            return seen
+        out |= reach(then_bb) - reach(else_bb)
+    return out
+
+
 def _r19_2(res, P, cfgname):
     n = 0
     for f in P.fns():
         if f["crate"] == "dashu_macros":
             continue
         body = f["mir"]
-        named = {v["p"]["l"] for v in body.get("vars", []) if not v["p"].get("p")}
+        region = debug_regions(body)
+        if not region:
+            continue
+        n += 1
+        du = mir.defuse_of(body)
         args = set(range(1, body["argc"] + 1))
-        sites = set()
         bad = []
-        for i, j, s in mir.iter_stmts(body, reachable_only=False):
-            if s["k"] != "as" or not _in_debug_assert(s.get("sp", "")):
-                continue
-            sites.add(mir.span_outer(s["sp"]))
-            rv = s["rv"]
-            # (a) assignment to a user variable / argument / through a pointer
-            tgt = s["p"]
-            if tgt["l"] in named | args or any(e.get("k") == "deref" for e in tgt.get("p", [])):
-                # bindings introduced by the assertion itself (match arms of assert_eq) are named
-                # temporaries whose scope ends with the assertion: they are defined only inside it
-                defs_outside = [d for d in mir.defuse_of(body).defs.get(tgt["l"], []) if d[1] != 't' and not _in_debug_assert(d[2].get("sp", ""))]
-                uses_outside = [u for u in mir.defuse_of(body).uses.get(tgt["l"], []) if not _in_debug_assert((u[2].get("sp") if isinstance(u[2], dict) else "") or "")]
-                if defs_outside or (tgt["l"] in args) or any(e.get("k") == "deref" for e in tgt.get("p", [])):
-                    bad.append(("assignment", span_loc(s["sp"])))
-            # (b) &mut of a place that lives outside the assertion
-            if rv["k"] in ("ref", "rawptr") and str(rv.get("m", "")).lower().startswith("mut"):
-                root = rv["p"]["l"]
-                if root in args or root in named:
-                    defs_outside = [d for d in mir.defuse_of(body).defs.get(root, []) if d[1] == 't' or not _in_debug_assert(d[2].get("sp", ""))]
-                    if root in args or defs_outside:
-                        bad.append(("&mut borrow", span_loc(s["sp"])))
-                elif any(e.get("k") == "deref" for e in rv["p"].get("p", [])):
-                    bad.append(("&mut reborrow", span_loc(s["sp"])))
-        for i, bb in enumerate(body["bbs"]):
-            t = bb["t"]
-            if t["k"] == "call" and _in_debug_assert(t.get("sp", "")):
-                sites.add(mir.span_outer(t["sp"]))
-        for site in sites:
-            n += 1
-        key = "debug assertions of " + f["p"]
-        if sites:
-            if bad:
-                res.fail("R19.2", cfgname, key, "a debug_assert! in %s has an effect that survives the assertion (%s): results would differ between debug and release builds" % (f["p"], bad[0][0]), bad[0][1])
-            else:
-                res.ok("R19.2", cfgname, key, nontrivial=True)
+        # locals defined outside the debug-only region (they outlive the assertion)
+        outside_defs = set()
+        for l, defs in du.defs.items():
+            for (b2, idx, node) in defs:
+                if b2 not in region:
+                    outside_defs.add(l)
+        outside_defs |= args
+        for i in sorted(region):
+            blk = body["bbs"][i]
+            for s in blk["s"]:
+                if s["k"] != "as":
+                    continue
+                tgt = s["p"]
+                through_ptr = any(e.get("k") == "deref" for e in tgt.get("p", []))
+                if (tgt["l"] in outside_defs and (tgt["l"] in args or through_ptr or any(v["p"]["l"] == tgt["l"] for v in body.get("vars", [])))) and not _is_flag(body, tgt["l"]):
+                    bad.append(("assignment to a place that outlives the assertion", span_loc(s["sp"])))
+                rv = s["rv"]
+                if rv["k"] in ("ref", "rawptr") and str(rv.get("m", "")).lower().startswith("mut"):
+                    root = rv["p"]["l"]
+                    deref = any(e.get("k") == "deref" for e in rv["p"].get("p", []))
+                    if root in outside_defs and (root in args or deref or any(v["p"]["l"] == root for v in body.get("vars", []))):
+                        bad.append(("&mut borrow of a place that outlives the assertion", span_loc(s["sp"])))
+        key = "debug-only regions of " + f["p"]
+        if bad:
+            res.fail("R19.2", cfgname, key, "debug-assertion code in %s has an effect that survives the assertion (%s): results would differ between debug and release builds" % (f["p"], bad[0][0]), bad[0][1])
+        else:
+            res.ok("R19.2", cfgname, key, nontrivial=True)
     if P.units.get("dashu_int") is not None and P.units["dashu_int"].debug_assertions:
-        res.floor("R19.2", cfgname, n, 150, "debug assertion sites")
+        res.floor("R19.2", cfgname, n, 100, "functions with debug-only regions")
+
+
+def _is_flag(body, l):
+    return body["locals"][l]["ty"] == "bool" and not any(v["p"]["l"] == l for v in body.get("vars", []))
 
 
 # ---- R19.4 ----------------------------------------------------------------------------------------
